@@ -14,7 +14,7 @@ pub fn def() -> PropDef {
         job_level,
         run_job,
         replay,
-        rule: "configs: key-producing base forms {x, S-x, C-S-x, (multi lctl x), (unmod x), (unshift x), use-defsrc, _ over a lower layer} wrapped 0..2 times (quick: 0..1 at depth D, 2 at D-1) in {multi, tap-hold tap slot, tap-hold hold slot, tap-dance, one-shot, fork left/right, switch case, v1 chord, v2 chord}, on 1-2 layers (subject key a; b in {plain b, lsft}; c = layer-while-held) with and without a defoverrides entry on the produced key; plus curated 3-layer configs with two layer keys; plus an override-chain family (subject forms that can produce x or y, chained defoverrides whose outputs depend on held lctl / lsft, the modifiers being plain keys held together with the subject). Histories: ALL physically consistent histories of D steps over {press, release, repeat of a and b; press/release c; tick 1; tick 6} (repeats at every point, also while a tap-hold is pending). Safety oracle on EVERY repeat step: at most one output event, it is a repeat, and its key is in the OS-down set before the step. Completeness oracle at every leaf where exactly one non-layer physical key p is down: settle 45 ticks; if the OS-down set D is non-empty, a repeat of p must emit a repeat for a member of D, and (for output chords, whose modifiers are listed first) for the non-modifier member. The probe applies only while no layer key has been released since p's first press (layers activated later leave the action's layer active) (the property speaks of actions on the active layers).",
+        rule: "configs: key-producing base forms {x, S-x, C-S-x, (multi lctl x), (unmod x), (unshift x), use-defsrc, _ over a lower layer} wrapped 0..2 times (quick: 0..1 at depth D, 2 at D-1) in {multi, tap-hold tap slot, tap-hold hold slot, tap-hold-press/release-timeout timeout slot, tap-dance, one-shot, fork left/right, switch case, v1 chord, v2 chord}, on 1-2 layers (subject key a; b in {plain b, lsft}; c = layer-while-held) with and without a defoverrides entry on the produced key; plus curated 3-layer configs with two layer keys; plus an override-chain family (subject forms that can produce x or y, chained defoverrides whose outputs depend on held lctl / lsft, the modifiers being plain keys held together with the subject). Histories: ALL physically consistent histories of D steps over {press, release, repeat of a and b; press/release c; tick 1; tick 6} (repeats at every point, also while a tap-hold is pending). Safety oracle on EVERY repeat step: at most one output event, it is a repeat, and its key is in the OS-down set before the step. Completeness oracle at every leaf where exactly one non-layer physical key p is down: settle 45 ticks; if the OS-down set D is non-empty, a repeat of p must emit a repeat for a member of D, and (for output chords, whose modifiers are listed first) for the non-modifier member. The probe applies only while no layer key has been released since p's first press (layers activated later leave the action's layer active) (the property speaks of actions on the active layers).",
         assumptions: &["D is attributed to p because every other held physical key is a pure layer key", "sequence mode is not entered in these configs (covered for safety by C02/C12)"],
         required_level,
         min_outcomes: 3,
@@ -37,6 +37,8 @@ const WRAPS: &[(&str, &str)] = &[
     ("multi", "(multi {F} lalt)"),
     ("th-tap", "(tap-hold 5 5 {F} lsft)"),
     ("th-hold", "(tap-hold-press 5 5 y {F})"),
+    ("th-timeout", "(tap-hold-press-timeout 5 5 y lalt {F})"),
+    ("th-rel-timeout", "(tap-hold-release-timeout 5 5 y lalt {F})"),
     ("td", "(tap-dance 5 ({F} y))"),
     ("os", "(one-shot 8 {F})"),
     ("fork-l", "(fork {F} y (rsft))"),
